@@ -67,7 +67,7 @@ def replay_records(chk, texts):
     if len(done) < len(chunks):
         chk.note("stopped after %d of %d record chunks because enough failing records were collected" % (len(done), len(chunks)))
     tot = {"SUB": 0, "GTS": 0, "G": 0, "D": 0, "calls": 0, "nontrivial": 0, "r0_undefined": 0, "graphs_built": 0}
-    never, by_series, samples, problems = {}, {}, {}, []
+    never, by_series, samples, problems = {}, {}, {}, {}
     for _, r in done:
         for k in tot:
             tot[k] += r[k]
@@ -77,7 +77,9 @@ def replay_records(chk, texts):
             by_series[k] = by_series.get(k, 0) + v
         for k, v in r["samples"].items():
             samples.setdefault(k, v)
-        problems.extend(r["problems"])
+        for k, (pr, cnt) in r["problems"].items():
+            slot = problems.setdefault(k, [pr, 0])
+            slot[1] += cnt
     return tot, never, by_series, samples, problems, len(done) == len(chunks)
 
 
@@ -148,11 +150,12 @@ def full_run(chk):
         for k, v in want.items():
             if tot[k] != v:
                 raise MachineryFailure("%d %s records were replayed but the specification's input family has %d" % (tot[k], k, v))
-    for p in problems:
-        chk.violation(p["key"], p["what"], p["replay"])
+    for key in sorted(problems):
+        p, cnt = problems[key]
+        chk.violation(key, p["what"] + " [%d record(s) of this class]" % cnt, p["replay"])
     if never:
         chk.note("get_time_shift with a threshold that is never reached (the property promises nothing): observed %s"
-                 % ", ".join("%s (%d inputs)" % kv for kv in sorted(never.items())))
+                 % ", ".join("%s (%d inputs)" % (k, v // 2) for k, v in sorted(never.items())))
     if tot["r0_undefined"]:
         chk.note("estimate_R0 on graphs without edges is undefined (<k> = 0); %d such (graph, T) pairs were not judged" % tot["r0_undefined"])
     chk.cov["evaluations"] += tot["calls"]
@@ -217,8 +220,9 @@ def replay_one(chk, path):
     if fresh != rec:
         print("NOTE: the specification's expectation differs from the one stored in the replay file (%r)" % (rec,))
     out = s.replay_chunk(texts)
-    for p in out["problems"]:
-        chk.violation(p["key"], p["what"], p["replay"])
+    for key in sorted(out["problems"]):
+        p = out["problems"][key][0]
+        chk.violation(key, p["what"], p["replay"])
     print("C20 replay: %d call(s) of the real functions, %d violation class(es)" % (out["calls"], len(chk.violations)))
     for key, (k, cnt) in sorted(chk.known_hit.items()):
         print("KNOWN-FINDING: property=C20 %s [%s]" % (k["what"], key))
